@@ -192,6 +192,10 @@ type harn struct {
 	expiring core.Duty
 	hasExp   bool
 	expireAt time.Duration
+
+	// eviction sub-scenario (see body): the key of the oldest filler duty, which other shares also sign
+	hasEvict bool
+	evictKey keyT
 }
 
 func (h *harn) stamp() int64 { h.mu.Lock(); defer h.mu.Unlock(); h.seq++; return h.seq }
@@ -512,8 +516,39 @@ func body(c *kernel.Ctx) {
 
 	// the two oldest exempt entries of the flood are stored before anything else, so that the cap
 	// only ever evicts filler entries (the statement says nothing about evicted partials).
-	if flood {
+	// Eviction sub-scenario: the oldest filler duty is also signed by t-2 other shares before the flood
+	// and by two more after it. The cap evicts (at most) the flooding share's partial from that entry;
+	// the other shares' partials still count: whichever t matching shares the store then holds, it
+	// triggers exactly once, with t distinct shares (checked by the generic trigger oracles plus
+	// "eviction/..." below; the key is exempted from the reference model, which knows no eviction).
+	var postEvict []*planBatch
+	if flood && h.n-1 >= h.t {
+		h.hasEvict, h.evictKey = true, keyT{fillers[0].duty, 0, 0}
+		var others []int
+		for sh := 1; sh <= h.n; sh++ {
+			if sh != floodShare {
+				others = append(others, sh)
+			}
+		}
+		for i := 0; i < len(others)-1; i++ {
+			j := i + verifrt.Intn("w", len(others)-i)
+			others[i], others[j] = others[j], others[i]
+		}
+		mk := func(sh int) *planBatch {
+			return &planBatch{duty: fillers[0].duty, share: sh, filler: true, internal: verifrt.Intn("w", 2) == 1, entries: []*datum{h.newDatum(h.evictKey, sh, 0)}}
+		}
 		exec(-1, fillers[0])
+		for _, sh := range others[:h.t-2] {
+			exec(-1, mk(sh))
+		}
+		for _, sh := range others[h.t-2 : h.t] {
+			postEvict = append(postEvict, mk(sh))
+		}
+		verifrt.Probe("exempt-eviction-with-other-shares")
+	} else if flood {
+		exec(-1, fillers[0])
+	}
+	if flood {
 		exec(-1, fillers[1])
 		perClient = append(perClient, fillers[2:])
 	}
@@ -535,6 +570,9 @@ func body(c *kernel.Ctx) {
 	verifrt.WGWait(&wg)
 	if flood {
 		verifrt.Probe("exempt-cap-exceeded")
+	}
+	for _, p := range postEvict {
+		exec(-1, p)
 	}
 	// Quiescence: simulated time only advances when nothing is runnable; whatever the store was going
 	// to do without further input (asynchronous triggers, expiry) has happened after this sleep.
@@ -716,10 +754,27 @@ func (h *harn) check() {
 	h.probes(byKey, keyOrder)
 
 	// -- per key: the history must be linearizable against the reference model (T1, T2, T4, E1, B1, D1)
+	if h.hasEvict {
+		nTrig := 0
+		for _, tr := range h.trigs {
+			if tr.keyOK && tr.key == h.evictKey {
+				nTrig++
+			}
+		}
+		switch {
+		case nTrig == 0:
+			h.violate("exactly-once", "eviction/missing-trigger", "key %v (t=%d): %d shares other than the flooding one stored matching partials (t-2 before the flood, 2 after it) but aggregation was never triggered; history: %s", h.evictKey, h.t, h.t, h.render(byKey[h.evictKey]))
+		case nTrig > 1:
+			h.violate("exactly-once", "eviction/duplicate-trigger", "key %v (t=%d): aggregation was triggered %d times; history: %s", h.evictKey, h.t, nTrig, h.render(byKey[h.evictKey]))
+		}
+	}
 	for _, k := range keyOrder {
 		ops := byKey[k]
 		if len(ops) > 40 {
 			continue // never generated
+		}
+		if h.hasEvict && k == h.evictKey {
+			continue // eviction is outside the reference model: checked above and by the trigger oracles
 		}
 		if h.linearizable(ops, 0) {
 			continue
